@@ -556,7 +556,7 @@ def _worker(args):
         out['error'] = traceback.format_exc()[-2000:]
     out['wall'] = time.time() - t0
     out['xsample'] = model.sample if model is not None else []
-    if not out['violations'] and not out['mismatch'] and not out['error']:
+    if not out['violations'] and not out['mismatch'] and not out['error'] and not out['gates']:
         out['history'] = {'cfg': out['history']['cfg'], 'n_events': len(out['history']['events'])} \
             if out['history'] else None
     return out
